@@ -233,6 +233,7 @@ Section Nested.
   Variable infun : bool.
   Variable rm : remaps.
   Variable NN : list vname.
+  Variable brk : bool.
 
   Notation tr := (tr rename rm).
   Notation tv := (tv rename rm).
@@ -242,6 +243,10 @@ Section Nested.
   Hypothesis none_free : forall x, In x NN -> x <> "" -> tr x <> "None".
   Hypothesis sem_identity : forall v, sem "" "Identity" [] [Some v] = Some [v].
   Hypothesis truth_of_bool : forall b, truth (of_bool b) = Some b.
+  (* for the Loop form `for` + `if not c: break` only (flag brk): Not negates a condition; every value is readable as a
+     condition (Python leaves the loop on an exhausted range without looking at the condition, the ONNX Loop reads it) *)
+  Hypothesis sem_not : forall v b, truth v = Some b -> exists r, sem "" "Not" [] [Some v] = Some [r] /\ truth r = Some (negb b).
+  Hypothesis truth_total : brk = true -> forall v, exists b, truth v = Some b.
 
   Notation exec_block := (exec_block V sem truth trip of_nat limit globals).
   Notation eval_expr := (eval_expr V sem globals).
@@ -362,6 +367,7 @@ Section Nested.
   Hypothesis Hsub : forall D ns sb Db, elist ns = Some sb -> wsub D ns = Some Db -> corr evg' fp' D Db ns sb.
   Hypothesis Htail : forall ns i u sb, elist (ns ++ [Node "" "Identity" [Some i] [u] [] []])%list = Some sb ->
                                        tr u = tr i -> u <> "" -> elist ns = Some sb.
+  Hypothesis Hfp : forall ns sb, elist ns = Some sb -> fp' <> 0.       (* a nested body has one more level of Python fuel *)
 
   Definition esub (g : graph) : option (list stmt) := if is_nil (g_inits g) then elist (g_nodes g) else None.
 
@@ -1005,6 +1011,242 @@ Section Nested.
     - intros x Hx. apply (bind_lookup_other V outs stf e e' x Eb). intros C. destruct (Houts x C) as (_ & _ & H3). contradiction.
   Qed.
 
+  (* ---- Loop, `for` + `if not c: break` form --------------------------------------------------------------- *)
+  Lemma exec_break : forall q (pe : penv), exec_block (S q) [SBreak] pe = Some (OBreak V pe).
+  Proof. reflexivity. Qed.
+
+  Lemma not_break_step : forall (pe : penv) x cv c rest, fp' <> 0 ->
+    plookup V pe x = Some (PT V cv) -> truth cv = Some c ->
+    exec_block (S fp') (SIf (EUn "Not" (EVar x)) [SBreak] [] :: rest) pe =
+    if c then exec_block (S fp') rest pe else Some (OBreak V pe).
+  Proof.
+    intros pe x cv c rest Hf Px Hc. destruct fp' as [|q]; [contradiction Hf; reflexivity|].
+    rewrite (exec_block_if V sem truth trip of_nat limit globals).
+    assert (Ev : eval_expr pe (EUn "Not" (EVar x)) = option_map (PT V) (sem1 V sem "" "Not" [] [Some cv])).
+    { cbn [PySem.eval_expr]. change (lookup_assoc "Not" primop_map) with (Some "Not"). rewrite Px. reflexivity. }
+    rewrite Ev. destruct (sem_not cv c Hc) as (r & Sr & Tr). unfold sem1. rewrite Sr. cbn [option_map ptruth]. rewrite Tr.
+    destruct c; cbn [negb].
+    - rewrite exec_block_nil'. cbn [oseq]. reflexivity.
+    - rewrite exec_break. cbn [oseq]. reflexivity.
+  Qed.
+
+  Section ForBreak.
+    Variables (D Db : list vname) (e : env V) (iv cin cout : vname) (fins fouts : list vname) (nsb : list node) (sb : list stmt).
+    Hypothesis HD : scoped D.
+    Hypothesis Hcorr : corr evg' fp' (fins ++ iv :: D)%list Db nsb sb.
+    Hypothesis Hnd : nodupb (iv :: cin :: fins) = true.
+    Hypothesis Hiv : iv <> "" /\ In iv NN /\ ~ In iv D.
+    Hypothesis Hcin : cin <> "" /\ In cin NN /\ ~ In cin D.
+    Hypothesis Hfins : forall o, In o fins -> o <> "" /\ In o NN /\ ~ In o D.
+    Hypothesis Houts : forall o, In o (cout :: fouts) -> In o Db.
+    Hypothesis Hlen : List.length fouts = List.length fins.
+    Hypothesis Hndt : nodupb (tr cin :: map tr fins) = true.
+    Hypothesis Hseq : seqok (tr cin :: map tr fins) (tr cout :: map tr fouts).
+    Hypothesis Hfp0 : fp' <> 0.
+    Hypothesis Htot : forall v, exists b, truth v = Some b.
+
+    Let body := Graph (iv :: cin :: fins) [] nsb (cout :: fouts).
+    Let inner := (sb ++ assigns (tr cin :: map tr fins) (tr cout :: map tr fouts))%list.
+
+    Lemma fb_iv_cin : tr cin <> tr iv.
+    Proof.
+      intros C. destruct Hcin as (A1 & A2 & _). destruct Hiv as (B1 & B2 & _).
+      assert (cin = iv) by (apply tr_inj; assumption). subst cin.
+      apply nodupb_cons in Hnd. destruct Hnd as [Hn1 _]. apply Hn1. left. reflexivity.
+    Qed.
+
+    Lemma fb_body_step : forall (pe : penv) st i, Inv D e pe -> pvals pe (map tr fins) = Some st ->
+      match eval_body evg' e body (of_nat i :: of_bool true :: st) with
+      | None => exec_block (S fp') inner ((tr iv, PT V (of_nat i)) :: pe) = None
+      | Some r => exists cv' st' pe', r = cv' :: st' /\ List.length st' = List.length st /\
+                    exec_block (S fp') inner ((tr iv, PT V (of_nat i)) :: pe) = Some (ONormal V pe') /\
+                    Inv D e pe' /\ plookup V pe' (tr cin) = Some (PT V cv') /\ pvals pe' (map tr fins) = Some st'
+      end.
+    Proof.
+      intros pe st i HI Hp.
+      destruct (for_body_env D e iv cin cin fins [] HD Hnd Hiv (proj2 (proj2 Hcin)) Hfins (or_introl (conj eq_refl eq_refl)) pe st (of_nat i) (of_bool true) HI Hp) as (e0 & E0 & I0 & F0 & C0).
+      unfold Sem.eval_body, body. cbn [g_ins g_nodes g_outs]. rewrite E0.
+      destruct Hcorr as (Hsc & Hincl & Hrun).
+      assert (HD' : scoped (fins ++ iv :: D)%list).
+      { apply scoped_app; [|intros o Ho; destruct (Hfins o Ho) as (A & B & _); split; assumption].
+        intros x [ <- | Hx ]; [destruct Hiv as (A & B & _); split; assumption|apply HD; exact Hx]. }
+      specialize (Hrun e0 _ (assigns (tr cin :: map tr fins) (tr cout :: map tr fouts)) I0 HD'). fold inner in Hrun.
+      destruct (run evg' e0 nsb) as [eb|]; [|exact Hrun].
+      destruct Hrun as (peb & X & Ib & Fb).
+      destruct (inv_pvals Db eb peb (cout :: fouts) Ib Houts) as (vs & L1 & L2). rewrite L1. cbn [map] in L2.
+      destruct (assigns_exec V sem truth trip of_nat limit globals (tr cin :: map tr fins) (tr cout :: map tr fouts) vs fp' [] peb L2)
+        as (pe' & X2 & P2 & F2).
+      { cbn [List.length]. rewrite !map_length. rewrite Hlen. reflexivity. }
+      { exact Hndt. }
+      { exact Hseq. }
+      rewrite app_nil_r in X2. cbn [EmitCFProofs.pvals] in P2.
+      destruct (plookup V pe' (tr cin)) as [[cv'|? ?]|] eqn:Pc; try discriminate.
+      destruct (pvals pe' (map tr fins)) as [st'|] eqn:Pf; [|discriminate]. inversion P2; subst vs. clear P2.
+      exists cv', st', pe'. split; [reflexivity|]. split.
+      { rewrite (pvals_length V pe' _ _ Pf), (pvals_length V pe _ _ Hp). reflexivity. }
+      split; [rewrite X; rewrite X2; reflexivity|]. split; [|split; [exact Pc|exact Pf]].
+      intros x Hx. destruct (HI x Hx) as (v & Lx & Px). exists v. split; [exact Lx|].
+      rewrite F2.
+      - assert (HxDb : In x (fins ++ iv :: D)%list) by (apply in_or_app; right; right; exact Hx).
+        destruct (Ib x (Hincl x HxDb)) as (w & Lw & Pw). rewrite Pw. rewrite (Fb x HxDb), (F0 x Hx), Lx in Lw. inversion Lw; reflexivity.
+      - intros [C|C].
+        + destruct (HD x Hx) as [A1 A2]. destruct Hcin as (B1 & B2 & B3). assert (cin = x) by (apply tr_inj; assumption). subst x. contradiction.
+        + exact (not_in_tr D fins x HD Hx Hfins C).
+    Qed.
+
+    Lemma fb_env_iv : forall (pe : penv) a st cv, Inv D e pe -> pvals pe (map tr fins) = Some st -> plookup V pe (tr cin) = Some (PT V cv) ->
+      Inv D e ((tr iv, PT V a) :: pe) /\ pvals ((tr iv, PT V a) :: pe) (map tr fins) = Some st /\
+      plookup V ((tr iv, PT V a) :: pe) (tr cin) = Some (PT V cv).
+    Proof.
+      intros pe a st cv HI Hp Pc. destruct Hiv as (B1 & B2 & B3). split; [|split].
+      - intros x Hx. destruct (HI x Hx) as (v & L & P). exists v. split; [exact L|]. cbn [plookup].
+        destruct (String.eqb (tr x) (tr iv)) eqn:E; [|exact P]. apply String.eqb_eq in E. destruct (HD x Hx) as [A1 A2].
+        assert (x = iv) by (apply tr_inj; assumption). subst x. contradiction.
+      - rewrite <- Hp. apply pvals_ext. intros z Hz. cbn [plookup]. destruct (String.eqb z (tr iv)) eqn:E; [|reflexivity].
+        apply String.eqb_eq in E. subst z. apply in_map_iff in Hz. destruct Hz as (f & Ef & Hf). destruct (Hfins f Hf) as (A1 & A2 & _).
+        assert (f = iv) by (apply tr_inj; assumption). subst f. apply nodupb_cons in Hnd. destruct Hnd as [Hn1 _]. exfalso. apply Hn1. right. exact Hf.
+      - cbn [plookup]. pose proof fb_iv_cin as Hne. apply String.eqb_neq in Hne. rewrite Hne. exact Pc.
+    Qed.
+
+    Lemma fb_corr : forall k i cv c st (pe : penv),
+      truth cv = Some c -> Inv D e pe -> plookup V pe (tr cin) = Some (PT V cv) -> pvals pe (map tr fins) = Some st ->
+      match loop_iter (eval_body evg') e body true k i c st with
+      | None => for_iter (S fp') (tr iv) (SIf (EUn "Not" (EVar (tr cin))) [SBreak] [] :: inner) k i pe = None
+      | Some stf => exists pe', for_iter (S fp') (tr iv) (SIf (EUn "Not" (EVar (tr cin))) [SBreak] [] :: inner) k i pe = Some (ONormal V pe') /\
+                                Inv D e pe' /\ pvals pe' (map tr fins) = Some stf
+      end.
+    Proof.
+      induction k as [|k IH]; intros i cv c st pe Hc HI Pc Pf.
+      - destruct c; cbn [Sem.loop_iter negb]; exists pe; (split; [reflexivity|split; assumption]).
+      - rewrite for_iter_S.
+        destruct (fb_env_iv pe (of_nat i) st cv HI Pf Pc) as (Ii & Pfi & Pci).
+        rewrite (not_break_step _ (tr cin) cv c inner Hfp0 Pci Hc).
+        destruct c; cbn [Sem.loop_iter negb].
+        + pose proof (fb_body_step pe st i HI Pf) as B.
+          destruct (eval_body evg' e body (of_nat i :: of_bool true :: st)) as [r|]; [|rewrite B; reflexivity].
+          destruct B as (cv' & st' & pe' & -> & Hl & X & I' & Pc' & Pf'). rewrite X. rewrite Hl, Nat.eqb_refl.
+          destruct (Htot cv') as [c' Hc']. rewrite Hc'. exact (IH (S i) cv' c' st' pe' Hc' I' Pc' Pf').
+        + eexists. split; [reflexivity|]. split; assumption.
+    Qed.
+  End ForBreak.
+
+  Lemma forbreak_step : forall D dom ins outs attrs subs ss Dn, brk = true ->
+    wf_forbreak rename rm NN wsub D dom ins outs attrs subs = Some Dn ->
+    emit_loop rename infun None rm [] esub ins outs attrs subs = Some ss ->
+    node_corr D Dn (Node dom "Loop" ins outs attrs subs) ss /\ Dn = (outs ++ D)%list /\ (forall o, In o outs -> o <> "" /\ In o NN).
+  Proof.
+    intros D dom ins outs attrs subs ss Dn Hbrk Hw He.
+    unfold wf_forbreak in Hw.
+    destruct ins as [|[m|] [|[c|] actual]]; try discriminate. destruct attrs; [|discriminate].
+    destruct subs as [|[bn [[|iv [|cin fins]] [|? ?] nsb [|cout fouts]]] [|? ?]]; try discriminate.
+    match type of Hw with (if ?b then _ else _) = _ => destruct b eqn:Hc; [|discriminate] end.
+    destruct (wsub (fins ++ iv :: D)%list nsb) as [Db|] eqn:Ew; [|discriminate].
+    destruct (forallb (fun o => memb o Db) (cout :: fouts)) eqn:Hob; [|discriminate].
+    inversion Hw; subst Dn. clear Hw.
+    apply andb_true_iff in Hc; destruct Hc as [Hc Q23].
+    apply andb_true_iff in Hc; destruct Hc as [Hc Q22].
+    apply andb_true_iff in Hc; destruct Hc as [Hc Q21].
+    apply andb_true_iff in Hc; destruct Hc as [Hc Q20].
+    apply andb_true_iff in Hc; destruct Hc as [Hc Q19].
+    apply andb_true_iff in Hc; destruct Hc as [Hc Q18].
+    apply andb_true_iff in Hc; destruct Hc as [Hc Q17].
+    apply andb_true_iff in Hc; destruct Hc as [Hc Q16].
+    apply andb_true_iff in Hc; destruct Hc as [Hc Q15].
+    apply andb_true_iff in Hc; destruct Hc as [Hc Q14].
+    apply andb_true_iff in Hc; destruct Hc as [Hc Q13].
+    apply andb_true_iff in Hc; destruct Hc as [Hc Q12].
+    apply andb_true_iff in Hc; destruct Hc as [Hc Q11].
+    apply andb_true_iff in Hc; destruct Hc as [Hc Q10].
+    apply andb_true_iff in Hc; destruct Hc as [Hc Q9].
+    apply andb_true_iff in Hc; destruct Hc as [Hc Q8].
+    apply andb_true_iff in Hc; destruct Hc as [Hc Q7].
+    apply andb_true_iff in Hc; destruct Hc as [Hc Q6].
+    apply andb_true_iff in Hc; destruct Hc as [Hc Q5].
+    apply andb_true_iff in Hc; destruct Hc as [Hc Q4].
+    apply andb_true_iff in Hc; destruct Hc as [Hc Q3].
+    apply andb_true_iff in Hc; destruct Hc as [Hc Q2].
+    apply String.eqb_eq in Hc. subst dom. apply String.eqb_eq in Q2. subst bn.
+    apply Nat.eqb_eq in Q4, Q6, Q7, Q8. apply memb_In in Q19, Q20.
+    pose proof (freshb_all D outs Q13) as Houts. pose proof (freshb_all D fins Q12) as Hfins.
+    pose proof (freshb_spec D cin Q11) as Hcin. pose proof (freshb_spec D iv Q10) as Hiv.
+    split; [|split; [reflexivity|intros o Ho; destruct (Houts o Ho) as (A1 & A2 & _); split; assumption]].
+    destruct (present_all actual Q4) as [Eact Etvo].
+    set (acts := present actual) in *.
+    assert (Hne_fins : forallb nonempty fins = true) by (eapply freshb_nonempty; exact Q12).
+    assert (Hne_outs : forallb nonempty outs = true) by (eapply freshb_nonempty; exact Q13).
+    rewrite (map_tv_tr fins Hne_fins) in *. rewrite (map_tv_tr outs Hne_outs) in *. rewrite (map_tv_tr fouts Q15) in *.
+    rewrite (tv_tr cout Q16) in *. rewrite Etvo in *.
+    unfold emit_loop in He. cbn [assigns_n assigns_o src_o src_n] in He.
+    destruct (loop_form_of (Some m :: Some c :: actual) (Graph (iv :: cin :: fins) [] nsb (cout :: fouts))) as [[| | |]|] eqn:Ef; try discriminate Q3.
+    cbn [g_ins g_outs] in He. unfold esub in He. cbn [g_inits g_nodes is_nil] in He.
+    destruct (elist nsb) as [sb|] eqn:Eel; [|discriminate].
+    change (has_in (Some m :: Some c :: actual) 1) with true in He. cbv iota in He.
+    change (nth 1 (Some m :: Some c :: actual) None) with (Some c) in He.
+    change (skipn 2 (Some m :: Some c :: actual)) with actual in He.
+    replace (List.length (Some m :: Some c :: actual) - 2) with (List.length actual) in He by (cbn [List.length]; lia).
+    rewrite <- Q7 in He at 1. rewrite firstn_all in He. rewrite <- Q8 in He. rewrite firstn_all in He.
+    rewrite (map_tv_tr fins Hne_fins), (map_tv_tr outs Hne_outs), (map_tv_tr fouts Q15), (tv_tr cout Q16), Etvo in He.
+    cbn [tvo] in He. inversion He; subst ss. clear He.
+    pose proof (Hsub (fins ++ iv :: D)%list nsb sb Db Eel Ew) as Hcorr.
+    pose proof (Hfp nsb sb Eel) as Hfp0.
+    pose proof (truth_total Hbrk) as Htot.
+    intros e pe rest HI HD.
+    unfold Sem.eval_node. change (is_if "" "Loop") with false. change (is_loop "" "Loop") with true. cbv iota.
+    change (find_sub "body" [("body", Graph (iv :: cin :: fins) [] nsb (cout :: fouts))]) with (Some (Graph (iv :: cin :: fins) [] nsb (cout :: fouts))).
+    cbv iota. cbn [lookup_opts].
+    rewrite forallb_forall in Q5.
+    destruct (inv_pvals D e pe (m :: c :: acts) HI) as (vs0 & L0 & P0).
+    { intros o [ <- | [ <- | Ho ] ]; [exact Q19|exact Q20|]. apply memb_In. apply Q5. exact Ho. }
+    cbn [lookups] in L0. destruct (lookup e m) as [mv|] eqn:Lm; [|discriminate]. destruct (lookup e c) as [cv|] eqn:Lc; [|discriminate].
+    destruct (lookups e acts) as [st0|] eqn:Ls; [|discriminate]. inversion L0; subst vs0. clear L0.
+    cbn [option_map]. fold acts. rewrite Ls.
+    cbn [map EmitCFProofs.pvals] in P0. destruct (plookup V pe (tr m)) as [[mv'|? ?]|] eqn:Pm; try discriminate.
+    destruct (plookup V pe (tr c)) as [[cv0|? ?]|] eqn:Pcc; try discriminate.
+    destruct (pvals pe (map tr acts)) as [st0'|] eqn:Pa; [|discriminate]. inversion P0; subst mv' cv0 st0'. clear P0.
+    cbn [app]. rewrite <- !app_assoc. cbn [app map] in *.
+    set (LOOP := SFor (tr iv) (EVar (tr m)) (SIf (EUn "Not" (EVar (tr cin))) [SBreak] [] :: sb ++ SAssign (tr cin) (EVar (tr cout)) :: assigns (map tr fins) (map tr fouts))).
+    set (R := (LOOP :: assigns (map tr outs) (map tr fins) ++ rest)%list).
+    change (SAssign (tr cin) (EVar (tr c)) :: assigns (map tr fins) (map tr acts) ++ R)%list
+      with (assigns (tr cin :: map tr fins) (tr c :: map tr acts) ++ R)%list.
+    assert (P0 : pvals pe (tr c :: map tr acts) = Some (cv :: st0)) by (cbn [EmitCFProofs.pvals]; rewrite Pcc, Pa; reflexivity).
+    destruct (assigns_exec V sem truth trip of_nat limit globals (tr cin :: map tr fins) (tr c :: map tr acts) (cv :: st0) (S fp') R pe P0)
+      as (pe1 & X1 & P1 & F1).
+    { cbn [List.length]. rewrite !map_length. rewrite Q4, Q6. reflexivity. }
+    { exact Q21. }
+    { apply seqokb_sound. exact Q22. }
+    rewrite X1. clear X1. unfold R, LOOP. clear R LOOP.
+    cbn [EmitCFProofs.pvals] in P1. destruct (plookup V pe1 (tr cin)) as [[cv1|? ?]|] eqn:Pc1; try discriminate.
+    destruct (pvals pe1 (map tr fins)) as [st1|] eqn:Pf1; [|discriminate]. inversion P1; subst cv1 st1. clear P1.
+    assert (Hout1 : forall x, In x D -> ~ In (tr x) (tr cin :: map tr fins)).
+    { intros x Hx [C|C].
+      - destruct (HD x Hx) as [A1 A2]. destruct Hcin as (B1 & B2 & B3). assert (cin = x) by (apply tr_inj; assumption). subst x. contradiction.
+      - exact (not_in_tr D fins x HD Hx Hfins C). }
+    assert (I1 : Inv D e pe1).
+    { intros x Hx. destruct (HI x Hx) as (v & Lx & Px). exists v. split; [exact Lx|]. rewrite F1; [exact Px|]. apply Hout1. exact Hx. }
+    rewrite (exec_block_for V sem truth trip of_nat limit globals).
+    assert (Pm1 : plookup V pe1 (tr m) = Some (PT V mv)) by (rewrite F1; [exact Pm|apply Hout1; exact Q19]).
+    rewrite (eval_var_bound V sem globals pe1 (tr m) _ Pm1). cbn [ptrip].
+    destruct (trip mv) as [k|]; [|reflexivity]. cbn [option_map].
+    destruct (Htot cv) as [c0 Hc0]. rewrite Hc0.
+    change (sb ++ SAssign (tr cin) (EVar (tr cout)) :: assigns (map tr fins) (map tr fouts))%list
+      with (sb ++ assigns (tr cin :: map tr fins) (tr cout :: map tr fouts))%list.
+    assert (Hob' : forall o, In o (cout :: fouts) -> In o Db) by (intros o Ho; apply memb_In; rewrite forallb_forall in Hob; apply Hob; exact Ho).
+    pose proof (fb_corr D Db e iv cin cout fins fouts nsb sb HD Hcorr Q9 Hiv Hcin Hfins Hob' (eq_trans Q7 (eq_sym Q6)) Q21
+                  (seqokb_sound _ _ Q23) Hfp0 Htot k 0 cv c0 st0 pe1 Hc0 I1 Pc1 Pf1) as W.
+    destruct (loop_iter (eval_body evg') e (Graph (iv :: cin :: fins) [] nsb (cout :: fouts)) true k 0 c0 st0) as [stf|]; [|rewrite W; reflexivity].
+    destruct W as (pe2 & X2 & I2 & P2). rewrite X2. cbn [oseq].
+    assert (Hlf : List.length outs = List.length stf).
+    { rewrite (pvals_length V pe2 _ _ P2), map_length. rewrite Q8, Q6. reflexivity. }
+    destruct (bind_some_length outs stf e Hlf) as [e' Eb]. rewrite Eb.
+    destruct (assigns_exec V sem truth trip of_nat limit globals (map tr outs) (map tr fins) stf (S fp') rest pe2 P2) as (pe3 & X3 & P3 & F3).
+    { rewrite !map_length. rewrite Q8, Q6. reflexivity. }
+    { exact Q17. }
+    { apply seqokb_sound. exact Q18. }
+    exists pe3. split; [exact X3|]. split.
+    - eapply inv_extend with (pe := pe2); try eassumption.
+    - intros x Hx. apply (bind_lookup_other V outs stf e e' x Eb). intros C. destruct (Houts x C) as (_ & _ & H3). contradiction.
+  Qed.
+
   (* ---- a plain node: Export/EmitProofs.v node_step, plus the frame ---------------------------------------- *)
   Lemma plain_step : forall D n ss Dn,
     wf_plain kw rename rm NN D n = Some Dn -> emit_node kw tr n = Some ss ->
@@ -1034,7 +1276,7 @@ Section Nested.
   Qed.
 
   Notation en := (emit_node_with kw rename infun None None rm [] esub).
-  Notation wn := (wf_node kw rename rm NN wsub).
+  Notation wn := (wf_node kw rename rm NN brk wsub).
 
   Lemma any_step : forall D n ss Dn, wn D n = Some Dn -> en n = Some ss ->
     node_corr D Dn n ss /\ exists news, Dn = (news ++ D)%list /\ (forall o, In o news -> o <> "" /\ In o NN).
@@ -1049,14 +1291,19 @@ Section Nested.
       destruct (wf_while rename rm NN wsub D dom ins outs attrs subs) as [r|] eqn:Ewh.
       - inversion Hw; subst r. destruct (while_step D dom ins outs attrs subs ss Dn Ewh He) as (A & B & C).
         split; [exact A|]. exists outs. split; assumption.
-      - destruct (for_step D dom ins outs attrs subs ss Dn Hw He) as (A & B & C).
-        split; [exact A|]. exists outs. split; assumption. }
+      - destruct (wf_for rename rm NN wsub D dom ins outs attrs subs) as [r|] eqn:Efo.
+        + inversion Hw; subst r. destruct (for_step D dom ins outs attrs subs ss Dn Efo He) as (A & B & C).
+          split; [exact A|]. exists outs. split; assumption.
+        + destruct (Bool.bool_dec brk true) as [Hb|Hb]; [|apply Bool.not_true_is_false in Hb; rewrite Hb in Hw; discriminate].
+          rewrite Hb in Hw.
+          destruct (forbreak_step D dom ins outs attrs subs ss Dn Hb Hw He) as (A & B & C).
+          split; [exact A|]. exists outs. split; assumption. }
     destruct (String.eqb op "Scan"); [discriminate|]. destruct (negb (is_nil subs)); [discriminate|].
     destruct (plain_step D _ ss Dn Hw He) as (A & B & C). split; [exact A|]. eexists. split; [exact B|exact C].
   Qed.
 
   Lemma list_corr : forall ns D Dfin ss,
-    wf_list kw rename rm NN wsub D ns = Some Dfin -> emit_all en ns = Some ss ->
+    wf_list kw rename rm NN brk wsub D ns = Some Dfin -> emit_all en ns = Some ss ->
     corr (eval_body evg') (S fp') D Dfin ns ss.
   Proof.
     induction ns as [|n t IH]; intros D Dfin ss Hw He.
@@ -1108,22 +1355,24 @@ Section Nested.
 
   Theorem nodes_corr : forall d ns D Dfin ss fp' fg',
     emit_nodes kw rename infun None None rm [] (S d) ns = Some ss ->
-    wf_cf kw rename rm NN (S d) D ns = Some Dfin ->
+    wf_cf kw rename rm NN brk (S d) D ns = Some Dfin ->
     d <= fp' -> d <= fg' ->
     corr (eval_body (eval_graph fg')) (S fp') D Dfin ns ss.
   Proof.
     induction d as [|d IH]; intros ns D Dfin ss fp' fg' He Hw Hp Hg.
     - cbn [emit_nodes] in He. cbn [wf_cf] in Hw.
-      apply (list_corr fp' (eval_graph fg') (emit_nodes kw rename infun None None rm [] 0) (wf_cf kw rename rm NN 0)); [| |exact Hw|exact He].
+      apply (list_corr fp' (eval_graph fg') (emit_nodes kw rename infun None None rm [] 0) (wf_cf kw rename rm NN brk 0)); [| | |exact Hw|exact He].
       + intros D0 ns0 sb Db H0. cbn [emit_nodes] in H0. discriminate H0.
       + apply emit_nodes_tail.
+      + intros ns0 sb0 H0. cbn [emit_nodes] in H0. discriminate H0.
     - destruct fp' as [|fp'']; [lia|]. destruct fg' as [|fg'']; [lia|].
       change (emit_nodes kw rename infun None None rm [] (S (S d)) ns)
         with (emit_all (emit_node_with kw rename infun None None rm [] (esub (emit_nodes kw rename infun None None rm [] (S d)))) ns) in He.
-      change (wf_cf kw rename rm NN (S (S d)) D ns) with (wf_list kw rename rm NN (wf_cf kw rename rm NN (S d)) D ns) in Hw.
-      apply (list_corr (S fp'') (eval_graph (S fg'')) (emit_nodes kw rename infun None None rm [] (S d)) (wf_cf kw rename rm NN (S d))); [| |exact Hw|exact He].
+      change (wf_cf kw rename rm NN brk (S (S d)) D ns) with (wf_list kw rename rm NN brk (wf_cf kw rename rm NN brk (S d)) D ns) in Hw.
+      apply (list_corr (S fp'') (eval_graph (S fg'')) (emit_nodes kw rename infun None None rm [] (S d)) (wf_cf kw rename rm NN brk (S d))); [| | |exact Hw|exact He].
       + intros D0 ns0 sb Db H0 H1. apply (IH ns0 D0 Db sb fp'' fg'' H0 H1); lia.
       + apply emit_nodes_tail.
+      + intros ns0 sb0 _. discriminate.
   Qed.
 End Nested.
 
@@ -1146,10 +1395,14 @@ Section MainCF.
      true condition of a Loop without condition input *)
   Hypothesis sem_identity : forall v, sem "" "Identity" [] [Some v] = Some [v].
   Hypothesis truth_of_bool : forall b, truth (of_bool b) = Some b.
+  (* used by the form `for` + `if not c: break` only, which is in the class when brk = true *)
+  Variable brk : bool.
+  Hypothesis sem_not : forall v b, truth v = Some b -> exists r, sem "" "Not" [] [Some v] = Some [r] /\ truth r = Some (negb b).
+  Hypothesis truth_total : brk = true -> forall v, exists b, truth v = Some b.
 
   Theorem export_cf_sound : forall fname ivals g f sk,
     export_cf kw prename rename infun None None false fname ivals g = Some (f, sk) ->
-    nested_okb kw prename rename infun ivals g = true ->
+    nested_okb kw prename rename infun brk ivals g = true ->
     forall fp fg xs, depth_graph g <= S fp -> depth_graph g <= S fg ->
       eval_script V sem truth trip of_nat limit globals (S (S fp)) f xs =
       match init_env V sem ivals with
@@ -1211,9 +1464,9 @@ Section MainCF.
     { intros x Hx. split; [apply HD0N; exact Hx | intros C; subst x; contradiction]. }
     cbn [depth_graph] in En, K10, Hfp, Hfg.
     match type of En with emit_nodes _ _ _ _ _ _ _ (S ?d) _ = _ => set (d0 := d) in * end.
-    destruct (wf_cf kw rename rm NN (S d0) (ins ++ inits)%list nodes) as [Dfin|] eqn:Ewf; [|discriminate].
+    destruct (wf_cf kw rename rm NN brk (S d0) (ins ++ inits)%list nodes) as [Dfin|] eqn:Ewf; [|discriminate].
     rewrite forallb_forall in K10.
-    destruct (nodes_corr V sem truth trip of_nat of_bool limit globals kw rename infun rm NN tr_inj none_free sem_identity truth_of_bool
+    destruct (nodes_corr V sem truth trip of_nat of_bool limit globals kw rename infun rm NN brk tr_inj none_free sem_identity truth_of_bool sem_not truth_total
                 d0 nodes (ins ++ inits)%list Dfin sn fp fg En Ewf ltac:(lia) ltac:(lia)) as (_ & _ & NR).
     specialize (NR e0 (rev_bind V t outer pe1) [SReturn (map (fun o => EVar (t o)) outs)] I0 HD0).
     change (Sem.eval_graph V sem truth trip of_nat of_bool limit (S fg)) with (Sem.eval_body V sem truth trip of_nat of_bool limit (Sem.eval_graph V sem truth trip of_nat of_bool limit fg)).
@@ -1231,7 +1484,8 @@ Require Import OV.Gen.ExportTables.
 (* ---- concrete witnesses (integers as tensors: a value is true when positive) ---------------------------------- *)
 Definition zsem2 (dom op : string) (attrs : list (string * attrv)) (args : list (option Z)) : option (list Z) :=
   if String.eqb op "Pow" then match args with [Some a; Some b] => Some [Z.pow a b] | _ => None end else
-  if String.eqb op "Identity" then match args with [Some a] => Some [a] | _ => None end else zsem dom op attrs args.
+  if String.eqb op "Identity" then match args with [Some a] => Some [a] | _ => None end else
+  if String.eqb op "Not" then match args with [Some a] => Some [if Z.ltb 0 a then 0%Z else 1%Z] | _ => None end else zsem dom op attrs args.
 Definition ztruth (z : Z) : option bool := Some (Z.ltb 0 z).
 Definition zscript2 (f : func) (xs : list Z) : option (list Z) :=
   eval_script Z zsem2 ztruth (fun z => Some (Z.to_nat z)) Z.of_nat 10 [] 4 f xs.
@@ -1275,7 +1529,7 @@ Definition f_nested : func :=
         SAssign "y" (ECall (COp "Sub") [Some (EVar "r_0"); Some (EVar "x")] []);
         SReturn [EVar "y"]] |}.
 Theorem export_nested_example :
-  nested_okb kwlist (cleanup kwlist) (cleanup kwlist) false iv_nested g_nested = true /\
+  nested_okb kwlist (cleanup kwlist) (cleanup kwlist) false false iv_nested g_nested = true /\
   export_cf kwlist (cleanup kwlist) (cleanup kwlist) false None None false "g" iv_nested g_nested = Some (f_nested, []) /\
   zscript2 f_nested [(-3)%Z] = Some [94%Z] /\ zscript2 f_nested [5%Z] = Some [(-10)%Z] /\
   option_map (fun outer => zgraph2 outer g_nested [(-3)%Z]) (init_env Z zsem2 iv_nested) = Some (Some [94%Z]) /\
@@ -1335,7 +1589,7 @@ Definition f_for : func :=
                 SAssign "y_0" (EVar "s");
                 SReturn [EVar "y_0"]] |}.
 Theorem export_for_example :
-  nested_okb kwlist (cleanup kwlist) (cleanup kwlist) true [] g_for = true /\
+  nested_okb kwlist (cleanup kwlist) (cleanup kwlist) true false [] g_for = true /\
   export_cf kwlist (cleanup kwlist) (cleanup kwlist) true None None false "g" [] g_for = Some (f_for, []) /\
   zscript2 f_for [5%Z; 3%Z] = Some [23%Z] /\ zgraph2 [] g_for [5%Z; 3%Z] = Some [23%Z] /\
   zscript2 f_for [5%Z; 0%Z] = Some [5%Z] /\ zgraph2 [] g_for [5%Z; 0%Z] = Some [5%Z].
@@ -1419,3 +1673,29 @@ Definition operator_entry_okb (e : string * string) : bool :=
   end.
 Theorem operator_table_reads_back : forallb operator_entry_okb use_operators_table = true.
 Proof. vm_compute. reflexivity. Qed.
+
+(* non-vacuity for the form with a trip count AND a condition: `for i in range(n): if not c: break; ...` *)
+Definition g_forbreak : graph :=
+  Graph ["x"; "n"] []
+    [Node "" "Loop" [Some "n"; Some "x"; Some "x"] ["y"] []
+       [("body", Graph ["i"; "c"; "s"] []
+                   [Node "" "Constant" [] ["one"] [("value", ATensor 7 [] [1%Z])] [];
+                    Node "" "Sub" [Some "s"; Some "one"] ["s2"] [] []]
+                   ["s2"; "s2"])]] ["y"].
+Definition f_forbreak : func :=
+  {| f_name := "g"; f_tparams := ["x"; "n"]; f_aparams := [];
+     f_body := [SAssign "c" (EVar "x"); SAssign "s" (EVar "x");
+                SFor "i" (EVar "n") [SIf (EUn "Not" (EVar "c")) [SBreak] [];
+                                     SAssign "one" (ECall (COp "Constant") [] [("value", KLit (ATensor 7 [] [1%Z]))]);
+                                     SAssign "s2" (ECall (COp "Sub") [Some (EVar "s"); Some (EVar "one")] []);
+                                     SAssign "c" (EVar "s2"); SAssign "s" (EVar "s2")];
+                SAssign "y" (EVar "s");
+                SReturn [EVar "y"]] |}.
+Theorem export_forbreak_example :
+  nested_okb kwlist (cleanup kwlist) (cleanup kwlist) true true [] g_forbreak = true /\
+  nested_okb kwlist (cleanup kwlist) (cleanup kwlist) true false [] g_forbreak = false /\
+  export_cf kwlist (cleanup kwlist) (cleanup kwlist) true None None false "g" [] g_forbreak = Some (f_forbreak, []) /\
+  zscript2 f_forbreak [2%Z; 5%Z] = Some [0%Z] /\ zgraph2 [] g_forbreak [2%Z; 5%Z] = Some [0%Z] /\
+  zscript2 f_forbreak [5%Z; 2%Z] = Some [3%Z] /\ zgraph2 [] g_forbreak [5%Z; 2%Z] = Some [3%Z] /\
+  zscript2 f_forbreak [(-1)%Z; 4%Z] = Some [(-1)%Z] /\ zgraph2 [] g_forbreak [(-1)%Z; 4%Z] = Some [(-1)%Z].
+Proof. vm_compute. repeat split. Qed.
